@@ -54,6 +54,7 @@ func checkIter(c iterCase) (nt bool, v *verdict) {
 		w.Nodes[i].ScanPages = pages
 		w.Unlock()
 	}
+	defer sim.ProductionRefreshRate()() // stable layout: see the function
 	px, err := sim.StartProxy(sim.ProxyOpts{Seeds: w.Addrs(w.Masters())})
 	if err != nil {
 		return nt, &verdict{"proxy-start", err.Error()}
